@@ -346,7 +346,13 @@ func (s *DisjunctionHeapSearcher) Less(i, j int) bool {
 	} else if s.heap[j].curr == nil {
 		return false
 	}
-	return s.heap[i].curr.IndexInternalID.Compare(s.heap[j].curr.IndexInternalID) < 0
+	cmp := s.heap[i].curr.IndexInternalID.Compare(s.heap[j].curr.IndexInternalID)
+	if cmp == 0 {
+		// clauses matching the same document leave the heap in clause
+		// order, so that their scores are always summed in the same order
+		return s.heap[i].matchingIdx < s.heap[j].matchingIdx
+	}
+	return cmp < 0
 }
 
 func (s *DisjunctionHeapSearcher) Swap(i, j int) {
